@@ -34,7 +34,7 @@ pub fn chain_strategy() -> BoxedStrategy<ChainSpec> {
         .boxed()
 }
 
-fn strategy(tier: Tier) -> BoxedStrategy<Case> {
+pub fn strategy(tier: Tier) -> BoxedStrategy<Case> {
     let (mp, mn) = tier.pick((65536usize, 4000usize), (1 << 20, 1 << 20));
     (reqgen::any_req(mp, mn), prop_oneof![1 => Just(None), 1 => chain_strategy().prop_map(Some)], any::<bool>())
         .prop_map(|(req, virtio, write_via_file)| Case { req, virtio, write_via_file })
